@@ -54,6 +54,8 @@ type act struct {
 type script struct {
 	// Slow: the daemons hold every pin/add for this many milliseconds (cancelled calls are dropped)
 	Slow  int      `json:"slow"`
+	// Reset: daemon outages drop connections instead of answering 500
+	Reset bool     `json:"reset"`
 	ID    string   `json:"id"`
 	Peers []string `json:"peers"`
 	Cids  []string `json:"cids"`
@@ -99,6 +101,8 @@ type outageProxy struct {
 	// fetch when the API connection closes
 	slow int32
 	held int32
+	// reset: an outage drops the connection (transport failure) instead of answering an IPFS-style 500
+	reset bool
 	ln   net.Listener
 	srv  *http.Server
 }
@@ -117,6 +121,14 @@ func newOutageProxy(target string) (*outageProxy, error) {
 	op := &outageProxy{ln: ln}
 	op.srv = &http.Server{Handler: http.HandlerFunc(func(w http.ResponseWriter, r *http.Request) {
 		if atomic.LoadInt32(&op.down) == 1 {
+			if op.reset {
+				if hj, ok := w.(http.Hijacker); ok {
+					if c, _, err := hj.Hijack(); err == nil {
+						c.Close()
+						return
+					}
+				}
+			}
 			w.Header().Set("Content-Type", "application/json")
 			w.WriteHeader(http.StatusInternalServerError)
 			w.Write([]byte(`{"Message":"daemon is down (verif outage)","Code":0,"Type":"error"}`))
@@ -207,6 +219,7 @@ func runScript(t *testing.T, sc *script, seed int64) (*obs, error) {
 		}
 		names.SetPeer(pn, r.ID)
 		atomic.StoreInt32(&gw.slow, int32(sc.Slow))
+		gw.reset = sc.Reset
 		n := &node{name: pn, r: r, mock: mock, gw: gw}
 		nodes[pn] = n
 		order = append(order, n)
@@ -385,6 +398,11 @@ func runScript(t *testing.T, sc *script, seed int64) (*obs, error) {
 		case "StateSyncAll":
 			stateSyncRound()
 			o.Results = append(o.Results, "StateSyncAll")
+		case "Settle":
+			// scheduling only (not an action of Cluster.tla): let the internal steps run to completion
+			if _, err := waitSettled(); err != nil {
+				return nil, err
+			}
 		case "IpfsDown":
 			nodes[a.P].gw.set(true)
 			o.Outage = append(o.Outage, a.P)
